@@ -325,4 +325,7 @@ def run(chk):
     from . import batcher
     batcher.bounded_retry(chk, P, "C12.batcher")
     batcher.retry_remainder(chk, P, "C12.batcher")
+    # "Flush reports success only after all of this has happened": every configured signal is flushed (shared with C07)
+    from . import c07
+    c07.end_to_end(chk, P, "C12.flush", only=("R5:OtlpInner::blocking_flush", "R5:Otlp::blocking_flush", "R5:otlp-transport"))
     return chk
